@@ -1535,7 +1535,17 @@ func runC14RingWeights(c *Ctx) {
 		for _, sb := range []float64{2, -2} {
 			models++
 			m := &Model{Num: map[string]float64{}, Bool: map[string]bool{}, Missing: map[string]bool{}}
-			it := &k4interp{p: c.P, m: m, mem: map[string]k4val{}, inline: func(g *ssa.Function) bool { return FuncName(g) == "geom.weightedCentroid" }}
+			it := &k4interp{p: c.P, m: m, mem: map[string]k4val{}, inline: func(g *ssa.Function) bool {
+				switch FuncName(g) {
+				case "geom.weightedCentroid", "geom.(Polygon).ExteriorRing", "geom.(Polygon).InteriorRingN", "geom.(Polygon).NumInteriorRings", "geom.(Polygon).NumRings", "geom.(Polygon).IsEmpty", "geom.maxInt":
+					return true
+				}
+				return false
+			}}
+			// the ring list: shell and one hole, as opaque rings (accessor calls and direct reads of p.rings interpret alike)
+			it.mem["$0.rings"] = k4val{kind: 8, s: "RING", ln: 2, cp: 2}
+			it.mem["RING[0]"] = k4val{kind: 3, s: "RING[0]"}
+			it.mem["RING[1]"] = k4val{kind: 3, s: "RING[1]"}
 			type wc struct {
 				ring   string
 				factor float64
@@ -1559,9 +1569,9 @@ func runC14RingWeights(c *Ctx) {
 					return k4val{kind: 1, b: false}, true
 				case !isBool && strings.Contains(key, "NumInteriorRings("):
 					return k4val{kind: 2, f: 1}, true
-				case !isBool && strings.Contains(key, "signedAreaOfLinearRing(") && strings.Contains(key, "ExteriorRing"):
+				case !isBool && strings.Contains(key, "signedAreaOfLinearRing(") && (strings.Contains(key, "ExteriorRing") || strings.Contains(key, "(RING[0]")):
 					return k4val{kind: 2, f: sa}, true
-				case !isBool && strings.Contains(key, "signedAreaOfLinearRing(") && strings.Contains(key, "InteriorRingN"):
+				case !isBool && strings.Contains(key, "signedAreaOfLinearRing(") && (strings.Contains(key, "InteriorRingN") || strings.Contains(key, "(RING[1]")):
 					return k4val{kind: 2, f: sb}, true
 				}
 				return k4val{}, false
@@ -1577,7 +1587,7 @@ func runC14RingWeights(c *Ctx) {
 			}
 			for _, cl := range calls {
 				want := 12.0 / 10
-				if strings.Contains(cl.ring, "InteriorRingN") {
+				if strings.Contains(cl.ring, "InteriorRingN") || strings.Contains(cl.ring, "RING[1]") {
 					want = -2.0 / 10
 				}
 				if cl.factor != want {
